@@ -7,12 +7,12 @@
 package lnmodel
 
 import (
-	"strings"
 	"context"
 	"crypto/sha256"
 	"encoding/hex"
 	"errors"
 	"fmt"
+	"strings"
 	"sync"
 	"time"
 
@@ -92,7 +92,7 @@ type Invoice struct {
 	// Canceled: the payee's node has given the invoice up (expired unpaid, or canceled by the operator). It is never
 	// settled afterwards; nodes report it in a state of its own (LND: CANCELED, CLN: expired).
 	Canceled bool
-	subs       []*sub
+	subs     []*sub
 }
 
 type Payment struct {
@@ -295,6 +295,8 @@ type Backend struct {
 	PayByHash map[string]PayAnswer
 	// ErrTruth is the ground truth recorded when the pay call answers PayError (what really happened).
 	ErrTruth Truth
+	// Permissive: invoice requests above 2^40 sat are answered with an (unpayable) invoice instead of an error.
+	Permissive bool
 	// CreateInvoiceErr makes CreateInvoice fail; InvoiceStatusErr makes InvoiceStatus fail.
 	CreateInvoiceErr bool
 	InvoiceStatusErr bool
@@ -442,6 +444,18 @@ func (b *Backend) CreateInvoice(amount uint64) (lightning.Invoice, error) {
 	if b.CreateInvoiceErr {
 		b.setAnswer(c.Seq, "error", true)
 		return lightning.Invoice{}, errors.New("lnmodel: MARKER-LN-INTERNAL create invoice failed")
+	}
+	if amount > 1<<40 && b.Permissive {
+		// a backend that answers every request with some invoice (like the repository's own test backend): the invoice is
+		// for one sat and is given up at once, so nothing can ever be paid into it - what the mint does with the amount
+		// it was asked for is its own responsibility
+		i, err := b.Net.newInvoice(1000, b)
+		if err != nil {
+			b.setAnswer(c.Seq, "error", true)
+			return lightning.Invoice{}, err
+		}
+		i.Canceled = true
+		return lightning.Invoice{PaymentRequest: i.Request, PaymentHash: i.Hash, Amount: amount, Expiry: 3600}, nil
 	}
 	if amount > 1<<40 {
 		// BOLT11 cannot carry absurd amounts; a real backend refuses too
